@@ -90,6 +90,12 @@ theorem spec_setConn_nodup (s : Spec.Broker.S) (k : Spec.Broker.Conn) (h : (s.co
     obtain ⟨x, ⟨_, hx⟩, rfl⟩ := ha
     exact hx
 
+theorem spec_getConn_setConn_if (s : Spec.Broker.S) (k' : Spec.Broker.Conn) (c : Nat) (hkid : k'.id = c) (c' : Nat) :
+    Spec.Broker.getConn (Spec.Broker.setConn s k') c' = if c' = c then some k' else Spec.Broker.getConn s c' := by
+  by_cases he : c' = c
+  · subst he; simp only [↓reduceIte]; rw [← hkid]; exact spec_getConn_setConn_self s k'
+  · simp only [he, ↓reduceIte]; exact spec_getConn_setConn_ne s k' c' (by rw [hkid]; exact he)
+
 /-! ### replacing the session object of a live connection -/
 
 section update
@@ -146,16 +152,12 @@ theorem R_update (h : R b s) {k k' : Spec.Broker.Conn}
     (hown : ∀ x ∈ s'.held, x.owner < cbBase → b.alive x.owner = true)
     (hother : ∀ c', c' ≠ c → Spec.Broker.heldOf s' c' = Spec.Broker.heldOf s c')
     (hrets : s'.rets = s.rets) (hstored : s'.stored = s.stored)
-    (hconns : s'.conns = (Spec.Broker.setConn s k').conns) (hkid : k'.id = c) (hov : s'.overlap = s.overlap)
+    (hnd : (s'.conns.map (·.id)).Nodup)
+    (hgc : ∀ c', Spec.Broker.getConn s' c' = if c' = c then some k' else Spec.Broker.getConn s c')
+    (hov : s'.overlap = s.overlap)
     (hrel : LiveRel b' s' c σ' k') : R b' s' := by
   have hal : ∀ c, b'.alive c = b.alive c := Mqtt.Proofs.Broker.alive_congr b b' hc
   have hlu := liveSess_update h hl hc hs href
-  have hgc : ∀ c', Spec.Broker.getConn s' c' = if c' = c then some k' else Spec.Broker.getConn s c' := by
-    intro c'
-    rw [spec_getConn_congr hconns]
-    by_cases he : c' = c
-    · subst he; simp only [↓reduceIte]; rw [← hkid]; exact spec_getConn_setConn_self s k'
-    · simp only [he, ↓reduceIte]; exact spec_getConn_setConn_ne s k' c' (by rw [hkid]; exact he)
   -- client identifiers of live sessions are those of `b`
   have hback : ∀ c' τ, liveSess b' c' = some τ → ∃ τ0, liveSess b c' = some τ0 ∧ τ0.cid = τ.cid := by
     intro c' τ ht
@@ -168,7 +170,7 @@ theorem R_update (h : R b s) {k k' : Spec.Broker.Conn}
     by rw [hrets]; exact h.retsOk, by unfold IdsOk; rw [hrr]; exact h.retIds, ?_, ?_, ?_, ?_, ?_, ?_⟩
   · intro x hx hlt; rw [hal]; exact hown x hx hlt
   · intro c' hc'; rw [hal] at hc'; exact h.connLt c' hc'
-  · rw [hconns]; exact spec_setConn_nodup s k' h.sconns
+  · exact hnd
   · intro c'
     rw [hal, hgc]
     by_cases he : c' = c
